@@ -100,6 +100,11 @@ class _LazyIter:
         return self.buf[i]
 
 
+def _hk(v):
+    """a tuple value (a list in this model) as a dict key: a real tuple, recursively"""
+    return tuple(_hk(x) for x in v) if isinstance(v, list) else v
+
+
 def _const_eval(node):
     """literal value of a constant expression: a literal display, or integer arithmetic over literals (`2**53`, `1 << 24`, `16 * 1024`)"""
     try:
@@ -173,7 +178,8 @@ class Tiny:
                     out_.append(self.ev(x))
             return out_
         if isinstance(e, ast.Dict):
-            return {self.ev(k): self.ev(v) for k, v in zip(e.keys, e.values) if k is not None}
+            # a tuple display as key is a tuple (hashable), not the list the model uses for tuple values
+            return {(_hk(self.ev(k)) if isinstance(k, ast.Tuple) else self.ev(k)): self.ev(v) for k, v in zip(e.keys, e.values) if k is not None}
         if isinstance(e, ast.Set):
             try:
                 return {self.ev(x) for x in e.elts}
@@ -223,6 +229,15 @@ class Tiny:
                             try:
                                 v_ = _const_eval(st_.value)
                             except (ValueError, TypeError, SyntaxError):
+                                # a display over other constants of the module / class (`{FRAME_TYPE_DATA: "stringReceived", ...}`): evaluated like any expression
+                                if isinstance(sv_, (ast.Dict, ast.Tuple, ast.List, ast.Set)) and getattr(self, "_cc_depth", 0) < 3:
+                                    self._cc_depth = getattr(self, "_cc_depth", 0) + 1
+                                    try:
+                                        return self.ev(sv_)
+                                    except (AnalysisError, TinyRaise):
+                                        continue
+                                    finally:
+                                        self._cc_depth -= 1
                                 continue
                             if isinstance(v_, (tuple, list, dict, set, frozenset, int, str, bytes, bool)) or v_ is None:
                                 return _from_py(list(v_) if isinstance(v_, tuple) else v_) if self.model_strings else (list(v_) if isinstance(v_, tuple) else v_)
@@ -238,7 +253,16 @@ class Tiny:
                 try:
                     return _from_py(_const_eval(self.module.consts[t])) if self.model_strings else _const_eval(self.module.consts[t])
                 except (ValueError, TypeError, SyntaxError):
-                    pass
+                    mv_ = self.module.consts[t]
+                    if isinstance(mv_, (ast.Dict, ast.Tuple, ast.List, ast.Set)) and getattr(self, "_cc_depth", 0) < 3:
+                        # a module-level table over other names of the module (`{(True, "last"): _PAT_A, ...}`): evaluated like any display
+                        self._cc_depth = getattr(self, "_cc_depth", 0) + 1
+                        try:
+                            return self.ev(mv_)
+                        except (AnalysisError, TinyRaise):
+                            pass
+                        finally:
+                            self._cc_depth -= 1
             if self.opaque_globals and t:
                 root = t.split(".")[0].split("[")[0].split("(")[0]
                 if root != "self" and root not in self.env and isinstance(e, ast.Attribute):
@@ -258,6 +282,8 @@ class Tiny:
                     raise TinyRaise("IndexError")
             if isinstance(b, dict) and not isinstance(e.slice, ast.Slice):
                 k = self.ev(e.slice)
+                if isinstance(e.slice, ast.Tuple):
+                    k = _hk(k)   # d[a, b]: the key is the tuple (a, b) (tuples are lists in this model; as keys they are tuples again)
                 try:
                     if k not in b:
                         raise TinyRaise("KeyError")
@@ -358,10 +384,29 @@ class Tiny:
         if isinstance(e, ast.UnaryOp) and isinstance(e.op, ast.Not):
             return not self.truth(self.ev(e.operand))
         if isinstance(e, ast.UnaryOp) and isinstance(e.op, ast.USub):
-            return -self.ev(e.operand)
+            v_ = self.ev(e.operand)
+            if not isinstance(v_, (int, float)):
+                raise AnalysisError(f"tiny: negation of {v_!r}")
+            return -v_
         if isinstance(e, ast.JoinedStr):
             if not self.model_strings:
-                return "<text>"
+                # without the string model a text is opaque -- except an f-string made of literal pieces and plain str / int values only (an attribute
+                # or key name built from a prefix: f"{peer}_max_window_bits"), which is that string
+                try:
+                    pieces = []
+                    for part in e.values:
+                        if isinstance(part, ast.Constant):
+                            pieces.append(str(part.value))
+                        else:
+                            v0 = self.ev(part.value)
+                            if not (isinstance(v0, (str, int)) and not isinstance(v0, bool) and part.conversion == -1 and part.format_spec is None) or v0 == "<text>":
+                                raise AnalysisError("opaque")
+                            pieces.append(str(v0))
+                    if pieces and all(isinstance(part, ast.Constant) for part in e.values):
+                        return "<text>"
+                    return "".join(pieces)
+                except (AnalysisError, TinyRaise):
+                    return "<text>"
             out = []
             for part in e.values:
                 if isinstance(part, ast.Constant):
@@ -373,6 +418,31 @@ class Tiny:
                     else:
                         out.append(f"<{v!r}>")  # formatting of anything else is not modelled: an opaque piece of text
             return _from_py("".join(out))
+        if isinstance(e, ast.GeneratorExp) and len(e.generators) == 1 and not e.generators[0].is_async and isinstance(e.generators[0].target, ast.Name):
+            src_ = self.ev(e.generators[0].iter)
+            if hasattr(src_, "__next__"):
+                # a generator expression over an (endless) iterator handed in by the rule, kept as a value (`usable = (t for t in gen if ...)`; `next(usable)`):
+                # a lazy Python generator; the loop variable is bound only while an element is being judged
+                def _lazy(src=src_, g=e.generators[0], elt=e.elt):
+                    pulled = 0
+                    for item in src:
+                        pulled += 1
+                        if pulled > 4096:
+                            raise AnalysisError("tiny: generator over an endless iterator does not terminate")
+                        had, old_ = g.target.id in self.env, self.env.get(g.target.id)
+                        self.env[g.target.id] = item
+                        try:
+                            ok_ = all(self.truth(self.ev(c)) for c in g.ifs)
+                            val_ = self.ev(elt) if ok_ else None
+                        finally:
+                            if had:
+                                self.env[g.target.id] = old_
+                            else:
+                                self.env.pop(g.target.id, None)
+                        if ok_:
+                            yield val_
+                return _lazy()
+            return list(self._comp(e, _seq0=src_))
         if isinstance(e, (ast.GeneratorExp, ast.ListComp)) and not any(g_.is_async for g_ in e.generators):
             return list(self._comp(e))
         if isinstance(e, ast.SetComp) and not any(g_.is_async for g_ in e.generators):
@@ -782,9 +852,9 @@ class Tiny:
             raise TinyRaise(r[1])
         return r[1] if r[0] == "return" else None
 
-    def _comp(self, e, depth=0):
+    def _comp(self, e, depth=0, _seq0=None):
         g = e.generators[depth]
-        seq = self.ev(g.iter)
+        seq = self.ev(g.iter) if (_seq0 is None or depth) else _seq0   # the outermost iterable may have been evaluated by the caller already (once)
         if isinstance(seq, dict):
             seq = list(seq)
         if isinstance(seq, set):
